@@ -108,13 +108,21 @@ def alias_probe(impl, views):
 
 
 def shared_containers(impl):
-    """informational id()-scan: containers reachable from two config objects / from a config and a source's inside"""
+    """informational id()-scan: (a) containers reachable from two config objects, (b) containers INSIDE caller-held
+    data that a config object reaches other than through the level slot holding that very dict"""
+    tops = {id(held) for _, held, _ in impl.sources}
     graphs = [cfglib.object_graph_ids(c) for c in impl.objs]
     between = 0
     for i in range(len(graphs)):
         for j in range(i + 1, len(graphs)):
             between += len(set(graphs[i]) & set(graphs[j]))
-    return between
+    inner = set()
+    for _, held, _ in impl.sources:
+        inner |= set(cfglib.dict_ids(held)) - {id(held)}
+    with_sources = 0
+    for c in impl.objs:
+        with_sources += len(set(cfglib.object_graph_ids(c, stop=tops)) & inner)
+    return between, with_sources
 
 
 def run_case(case, tmpdir):
@@ -161,7 +169,7 @@ def run_case(case, tmpdir):
         why = alias_probe(impl, allviews[-1])
         if why:
             fail, sig = why, "other"
-        stats["shared"] = shared_containers(impl)
+        stats["shared"], stats["shared_src"] = shared_containers(impl)
     n = len(results)
     return ops[:n], cfglib.rows(results, allviews), fail, sig, stats, results
 
@@ -195,7 +203,7 @@ def run(ctx):
     tmp = tempfile.mkdtemp(prefix="verif-c11-")
     lines, rows, ran = [], [], []
     try:
-        for _ in range(ctx.n(2500, 40000)):
+        for _ in range(ctx.n(4000, 50000)):
             case = gen_case(rng)
             ops, row, fail, sig, stats, results = run_case(case, tmp)
             case = {"kind": "c11", "ops": ops}
@@ -210,6 +218,7 @@ def run(ctx):
             out.hist["via_collection"] += len([o for o in ops if o.get("via_coll")])
             out.hist["post_clone_ops"] += sum(1 for i, o in enumerate(ops) if clones and i > ops.index(clones[0]) and o["op"] != "CLONE")
             out.hist["shared_containers_between_objects"] += stats.get("shared", 0)
+            out.hist["source_containers_reachable_from_config_internals"] += stats.get("shared_src", 0)
             if fail:
                 out.hist["oracle_" + sig] += 1
                 if sig not in KNOWN_SIGS or out.hist["oracle_" + sig] <= 12:
@@ -237,10 +246,10 @@ def run(ctx):
 
 
 LEVEL_TEXT = ("Lean 4 proofs: generated_clone_slots_complete (by decide over the slot list regenerated by behavioural probing "
-              "of the real Config.clone on every run), clone_slots_eq / clone_view_eq (a clone of ANY configuration carries "
+              "of the real Config.clone on every run), clone_slots_eq / clone_view_eq / clone_of_reachable (a clone of ANY configuration carries "
               "every slot and therefore reads identically on every key path, because the view is a function of the slots), "
-              "clone_independent (frame theorem on the pair state), clone_into_adds_only (subclass defaults) and the "
-              "counterexamples for a clone that drops the deletion marks / for the subclass-defaults overwrite; independence "
+              "clone_independent (frame theorem on the pair state) and the counterexample theorems for a clone that drops the "
+              "deletion marks / for the subclass-defaults overwrite (known finding); independence "
               "and non-mutation of supplied data on the REAL objects are established by snapshot comparison after every "
               "operation of generated histories plus an in-place alias probe, and the model is tied by correspondence")
 TECHNIQUE = ("Lean 4 theorems (slot-function view, decide over generated slot table) + behavioural slot probing + "
